@@ -234,3 +234,14 @@ Definition init (root_evals : nat) : st :=
 (* how far a trace is accepted (for the correspondence report): index of the first rejected event *)
 Fixpoint accepted_prefix (c : cfg) (s : st) (evs : list event) (i : nat) : nat * st :=
   match evs with [] => (i, s) | e :: r => match step c s e with Some s' => accepted_prefix c s' r (S i) | None => (i, s) end end.
+
+(* ---------------------------------------------------------------- deme ids (_next_child_id) as paths of numbers *)
+(* len(tree.levels[level]) at the moment deme i was created: the earlier demes of the same level (levels only grow, creation order = index) *)
+Definition lvl_index (ds : list deme) (i : nat) : nat := count (fun d => Nat.eqb (d_lvl d) (d_lvl (dnth i ds))) (firstn i ds).
+Fixpoint did_fuel (fuel : nat) (ds : list deme) (i : nat) : list nat :=
+  match fuel with
+  | O => []
+  | S f => match d_par (dnth i ds) with None => [] | Some p => did_fuel f ds p ++ [lvl_index ds i] end
+  end.
+Definition did (ds : list deme) (i : nat) : list nat := did_fuel (length ds) ds i.
+
